@@ -33,6 +33,14 @@ CHECKS = {
    technique="exhaustive single-field alteration and forgery of every honest proof in every saturated replica state, applied to the real replica (E2 x E4)",
    text="Every replica state reachable by honest replication (C03 saturation) x every honest proof enabled there x every single-field alteration (bit flips in value, every node hash and the signature; +-1 on fork, indices, sizes, seek bytes, upgrade start/length; node drop/duplicate/swap/insert at every position; section removal) plus forgeries built with the independent scheme reference (other-key signatures, foreign writer, substituted block with recomputed ancestors, genuine signature for another length). Oracle: the classes the statement names must be refused; a refused proof leaves all observations (live and after reopen) unchanged; after any accepted proof held blocks equal the writer's, the length pair is one the writer signed and honest replication still completes; never a panic.",
    note="Sizes of the bottom node of hash-only and seek sections are excluded as in the statement. Numeric alterations are +-1. Trusted: independent BLAKE2b/Ed25519 scheme reference, replica model."),
+ "C05": dict(cat="exploration", ref="DESIGN.md §2 C05",
+   technique="bounded-exhaustive exploration of append/batch/reopen mixes on the real crate, differential against an independent BLAKE2b/Ed25519/flat-tree scheme reference",
+   text="For all mixes of single/batch appends and reopens up to the depth (block sizes rotating through 0..5000 bytes, log lengths 0..17 quick / 0..33 thorough plus 8193 and 32769), every full tree node read from the files by the independent layout reader, the root hash, the stored signature, and every node and signature carried in block/hash/upgrade proofs are compared with the reference implementation of the Hypercore v10 scheme.",
+   note="Trusted base: blake2 and ed25519-dalek primitives, the harness's own flat-tree arithmetic and CRC-32; reference anchored to JavaScript through the golden tree-file hashes of C06."),
+ "C06": dict(cat="exploration", ref="DESIGN.md §2 C06",
+   technique="bounded-exhaustive exploration with an independent JS-layout reader (all explored histories) and reference encoder (synthetic storages), anchored by the 20 golden interop hashes",
+   text="(a) the five interop steps reproduce all 20 golden SHA-256 file hashes and the independent reader decodes those bytes to the scenario state; (b) after every step of every explored writer and replica history (pending entries of all five kinds) the independent reader reconstructs key, writability, fork, length, byte length, present set and block bytes equal to the model/API; (c) ~1500 (quick) synthetic JS-valid storages - header in either slot with every bit pattern, pending append/clear/block-only/upgrade-only/nodes-only entries, finished and unfinished atomic batches, stale entries, zero padding - are opened by the crate to the layout-defined state and remain usable. A hang or panic while opening is a violation (supervisor watchdog).",
+   note="User-data sections are never produced by the crate and treated as empty. JS-written oplogs are at least 8192 bytes long (every header flush truncates to the entry offset); shorter files are not generated. Trusted: the reference reader/encoder, anchored to JavaScript by the golden hashes."),
 }
 
 PENDING = {
